@@ -20,6 +20,9 @@ from concurrent.futures import ThreadPoolExecutor
 
 HERE = os.path.dirname(os.path.dirname(os.path.abspath(__file__)))
 PY = sys.executable
+ALL_PROPS = tuple(
+    sorted(fn[:-3].upper() for fn in os.listdir(os.path.join(HERE, "yawsa", "rules")) if fn.startswith("c") and fn[1:3].isdigit() and fn.endswith(".py"))
+)
 
 
 def load_variants(only: str | None = None) -> list[dict]:
@@ -41,6 +44,17 @@ def load_variants(only: str | None = None) -> list[dict]:
                 if only and only not in v.get("properties", [v.get("property")]):
                     continue
                 out.append(v)
+    # behaviour-preserving refactorings written by independent sub-agents (each confirmed: 111 tests pass,
+    # equivalence program exits 0 with and without); every claimed check must stay silent on each of them
+    rp = os.path.join(HERE, "selftest", "refactors", "patches")
+    if os.path.isdir(rp):
+        for name in sorted(os.listdir(rp)):
+            pf = os.path.join(rp, name, "patch.diff")
+            if not os.path.isfile(pf):
+                continue
+            if only and only not in ALL_PROPS:
+                continue
+            out.append({"id": f"refactor-patch-{name}", "kind": "refactor", "properties": [only] if only else list(ALL_PROPS), "patch": pf, "source": "refactor-agent"})
     # seeded changes written by independent sub-agents (kept under /verif/seeded/<id>/patch.diff)
     sd = os.path.join(HERE, "seeded")
     if os.path.isdir(sd):
